@@ -46,6 +46,10 @@ func DisableLog() {
 	qlog.SetHandler(log.DiscardHandler())
 }
 
+// closeSentinel is what Close / closeTopic push into a topic's channels to stop its
+// subscriber; it is recognised by identity, so no user message can be mistaken for it
+var closeSentinel = &Message{}
+
 type chanSub struct {
 	high    chan *Message
 	low     chan *Message
@@ -163,11 +167,11 @@ func (q *queue) Close() {
 		for topic, ch := range q.chanSubs {
 			if ch.isClose == 0 {
 				select {
-				case ch.high <- &Message{}:
+				case ch.high <- closeSentinel:
 				default:
 				}
 				select {
-				case ch.low <- &Message{}:
+				case ch.low <- closeSentinel:
 				default:
 				}
 				close(ch.done)
@@ -210,11 +214,11 @@ func (q *queue) closeTopic(topic string) {
 	if sub.isClose == 0 {
 		// Avoid deadlock when channels are already full during topic close.
 		select {
-		case sub.high <- &Message{}:
+		case sub.high <- closeSentinel:
 		default:
 		}
 		select {
-		case sub.low <- &Message{}:
+		case sub.low <- closeSentinel:
 		default:
 		}
 	}
